@@ -20,6 +20,8 @@ type program struct {
 	InitTicks int
 	// ChanInLit: a function literal of the program blocks in a channel operation.
 	ChanInLit bool
+	// PreCtx: Pre is evaluated through EvalWithContext with a context that cannot be cancelled.
+	PreCtx bool
 	// Crowd: thousands of workers blocked in a callee (Blocking.tla Crowd); cancelled once all are blocked.
 	Crowd bool
 }
